@@ -60,7 +60,8 @@ Definition summary_groups (gs : list (list op)) : bool * list (N * list N) * lis
 (* Cheap transport of histories: an operation is a list of binary numbers [tag; args...] (unary `nat` literals
    are slow to elaborate).  Tags: 0 NewModule, 1 Eval m g (s gs)*, 2 Load m f their local, 3 Import m f,
    4 Define m s deps*, 5 Alias m s s', 6 Freeze m, 7 GetOwned f s, 8 Map k h, 9 AddToHeap k m s, 10 NewBuilder,
-   11 AddToBuilder k b s, 12 Build b, 13 FromGlobals g, 14 Clone r, 15 Drop r.  Malformed = no operation. *)
+   11 AddToBuilder k b s, 12 Build b, 13 FromGlobals g, 14 Clone r, 15 Drop r, 16 NewCarrier, 17 AddToCarrier k b s,
+   18 SealCarrier b g (g: 1 = Globals, 0 = handle).  Malformed = no operation. *)
 Fixpoint pairs_of (l : list nat) : list (nat * nat) :=
   match l with a :: b :: t => (a, b) :: pairs_of t | _ => [] end.
 
@@ -82,12 +83,20 @@ Definition dec (code : list N) : list op :=
   | [13; g] => [OpFromGlobals g]
   | [14; r] => [OpClone r]
   | [15; r] => [OpDrop r]
+  | [16] => [OpNewCarrier]
+  | [17; k; b; s] => [OpAddToCarrier k b s]
+  | [18; b; g] => [OpSealCarrier b (Nat.eqb g 1)]
   | _ => []
   end.
 
 Definition dec_groups (gs : list (list (list N))) : list (list op) := map (flat_map dec) gs.
 Definition trace_n (gs : list (list (list N))) : list obs := trace_groups (dec_groups gs).
 Definition summary_n (gs : list (list (list N))) := summary_groups (dec_groups gs).
+
+Example dec_carrier :
+  dec_groups [[[16%N]; [17; 1; 2; 0]%N; [18; 2; 0]%N; [15; 1]%N]; [[18; 3; 1]%N]]
+  = [[OpNewCarrier; OpAddToCarrier 1 2 0; OpSealCarrier 2 false; OpDrop 1]; [OpSealCarrier 3 true]].
+Proof. reflexivity. Qed.
 
 Example dec_roundtrip :
   dec_groups [[[0%N]]; [[4; 0; 1]%N; [2; 1; 0; 1; 3]%N]; [[1; 3; 2; 7; 5]%N; [15; 2]%N]]
